@@ -116,7 +116,84 @@ func noReturnCall(ins ssa.Instruction) bool {
 	case "os.Exit", "log.Fatal", "log.Fatalf", "log.Fatalln", "runtime.Goexit":
 		return true
 	}
-	return false
+	return neverReturns(f)
+}
+
+// neverReturns: a function with a body none of whose reachable blocks returns - every way through it ends in a call
+// that does not come back or in a panic (`func exitWithError(...) { fmt.Printf(...); os.Exit(1) }`). Recursion counts
+// as returning.
+var neverReturnsMemo = map[*ssa.Function]int{} // 1 in progress or returns, 2 never returns
+
+func neverReturns(f *ssa.Function) bool {
+	if f.Blocks == nil || f.Recover != nil {
+		return false
+	}
+	if st := neverReturnsMemo[f]; st != 0 {
+		return st == 2
+	}
+	neverReturnsMemo[f] = 1
+	for b := range reachableFrom(f.Blocks[0], nil) {
+		if _, ok := lastInstr(b).(*ssa.Return); ok {
+			stops := false
+			for _, ins := range b.Instrs {
+				if noReturnCall(ins) {
+					stops = true
+				}
+			}
+			if !stops {
+				return false
+			}
+		}
+	}
+	neverReturnsMemo[f] = 2
+	return true
+}
+
+// exitStatusOf: the constant status a call that does not come back ends the process with: os.Exit(k) itself, log.Fatal*
+// (1), or a module function that never returns and ends with the same status on every way through it. ok is false when
+// the status is not one constant.
+func exitStatusOf(ins ssa.Instruction, depth int) (int64, bool) {
+	call, isCall := ins.(*ssa.Call)
+	if !isCall || depth > 3 {
+		return 0, false
+	}
+	f := call.Call.StaticCallee()
+	if f == nil || f.Pkg == nil {
+		return 0, false
+	}
+	switch f.Pkg.Pkg.Path() + "." + f.Name() {
+	case "os.Exit":
+		if k, ok := call.Call.Args[0].(*ssa.Const); ok && k.Value != nil {
+			return k.Int64(), true
+		}
+		return 0, false
+	case "log.Fatal", "log.Fatalf", "log.Fatalln":
+		return 1, true
+	}
+	if !neverReturns(f) {
+		return 0, false
+	}
+	var status int64
+	seen := false
+	for b := range reachableFrom(f.Blocks[0], nil) {
+		for _, in2 := range b.Instrs {
+			if !noReturnCall(in2) {
+				continue
+			}
+			k, ok := exitStatusOf(in2, depth+1)
+			if !ok || seen && k != status {
+				return 0, false
+			}
+			status, seen = k, true
+		}
+		if _, isPanic := lastInstr(b).(*ssa.Panic); isPanic {
+			if seen && status != 2 {
+				return 0, false
+			}
+			status, seen = 2, true
+		}
+	}
+	return status, seen
 }
 
 // succs returns the successors of b with edges after no-return calls and panics cut.
